@@ -18,6 +18,7 @@ func init() {
 			"R6 also: the in-memory cipher key type keeps every byte of the 4-byte tag (no narrowing conversion between header and table lookup). " +
 			"Added in round 5: R3 also covers every other store into the key field: the parent's key itself (shared, read-only) or a fresh buffer — never an append/slice onto another filespace's key material, which rewrites that key in place. " +
 			"Added in round 6: R9 also requires that every method of a stream writer other than Close that sets the buffer field extends what is already there (a ReadFrom fast path that replaces the buffer drops the bytes written before). " +
+			"Added in round 7: R5 every non-nil reader a cipher's DecryptReader returns is the result of the selected cipher's DecryptReader / newReader (no home-made empty stream for an emptied file). " +
 			"NOT decided: round-trip equality for all plaintexts, ciphertext indistinguishability, AEAD correctness (trusted: crypto/cipher), behaviour of user-supplied ciphers.",
 	})
 }
@@ -870,6 +871,38 @@ func ruleDecryptReaders(c *Ctx, ciphers []*types.Named, ciface *types.Interface)
 			}
 		})
 		c.Check(okD, "R5", "stream reader serves only opened data", nr.Pos(), "reader.data = Decrypt's result", "the stream reader serves bytes that did not pass Decrypt")
+	}
+	// a cipher's DecryptReader hands out only what a decrypting reader constructor produced: a
+	// reader of its own making (e.g. an empty stream for an emptied file) serves bytes - or an end
+	// of data - that never passed authentication
+	for _, f := range fns {
+		if f.Signature.Recv() == nil {
+			continue
+		}
+		bad := ""
+		for _, r := range returnsOf(f) {
+			if len(r.Results) < 2 {
+				continue
+			}
+			rv := resolve(r.Results[0])
+			if isNilConst(rv) {
+				continue
+			}
+			okR := false
+			if ex, isEx := rv.(*ssa.Extract); isEx && ex.Index == 0 {
+				if call, isC := ex.Tuple.(*ssa.Call); isC {
+					ci := callInfo(call, nil, 0)
+					if ci != nil && ((ci.Method != nil && ci.Method.Name() == "DecryptReader") || (ci.Static != nil && (ci.Static.Name() == "newReader" || ci.Static.Name() == "DecryptReader"))) {
+						okR = true
+					}
+				}
+			}
+			if !okR {
+				bad = c.pos(r.Pos())
+			}
+		}
+		c.Check(bad == "", "R5", "reader handed out by "+fname(f), f.Pos(), "every non-nil reader is the result of the selected cipher's DecryptReader / newReader",
+			"the return at "+bad+" hands out a reader that no decrypting constructor produced — stored bytes (or their absence) are answered without authentication, and the stream path disagrees with ReadFile")
 	}
 	for _, f := range fns {
 		// the stream parameter
